@@ -62,7 +62,7 @@ class DslProp(PropBase):
 
     def mk(self, rng, kind, depth):
         gen = GE.ExprGen(rng, rich=True)
-        if kind in ("canon", "canon_eq", "sum_simplify", "sum_safe_simplify") and rng.random() < 0.25:
+        if kind in ("canon", "canon_eq", "sum_simplify", "sum_safe_simplify", "marginalize", "conditional", "normalize_marginalize", "sum_safe") and rng.random() < 0.25:
             # names of different lengths ("Z10" < "Z2" as strings): alphabetical and natural order differ
             gen = GE.ExprGen(rng, names=["A", "B", "C", "D", "Z10", "Z2"], rich=True)
         c = {"kind": kind}
@@ -213,9 +213,15 @@ class DslProp(PropBase):
             feats.append(f"{type(a).__name__}x{type(b).__name__}")
         elif kind in ("marginalize", "conditional", "normalize_marginalize", "sum_safe", "sum_safe_simplify"):
             rs = [V(n) for n in case["rs"]]
-            f = {"marginalize": lambda: a.marginalize(rs), "conditional": lambda: a.conditional(rs),
-                 "normalize_marginalize": lambda: a.normalize_marginalize(rs), "sum_safe": lambda: Sum.safe(a, rs),
-                 "sum_safe_simplify": lambda: Sum.safe(a, rs, simplify=True)}[kind]
+            # the argument as callers write it: Variables or their names, a list, a tuple, a set - or, for one variable, the bare name / object
+            import zlib
+            h = zlib.crc32(repr(case).encode()) % 6
+            ra = {0: rs, 1: list(case["rs"]), 2: tuple(rs), 3: set(rs), 4: rs, 5: list(case["rs"])}[h]
+            if len(rs) == 1 and h in (4, 5):
+                ra = case["rs"][0] if h == 5 else rs[0]
+            f = {"marginalize": lambda: a.marginalize(ra), "conditional": lambda: a.conditional(ra),
+                 "normalize_marginalize": lambda: a.normalize_marginalize(ra), "sum_safe": lambda: Sum.safe(a, ra),
+                 "sum_safe_simplify": lambda: Sum.safe(a, ra, simplify=True)}[kind]
             res, exc = exc_code(f)
             code = ["marginalize", "conditional", "normalize_marginalize", "sum_safe", "sum_safe_simplify"].index(kind)
             term = f"CMarg {code} {GE.c_expr(a)} {GE.c_vars(rs)} {ser(res, exc)}"
